@@ -185,6 +185,8 @@ Section AabbTree.
              (order : list nat) : res tree :=
     let n := length bs in
     if n =? 0 then Ok t else
+    (* assert external_data_list is None or len(external_data_list) == aabb_len *)
+    if negb (match data with Some d => length d =? n | None => true end) then Err EAssert else
     let filled1 := filled t + n in
     let ns := nodes t ++ repeat node_none (2 * (filled1 - length (nodes t))) in
     let ab0 := aabbs t ++ bs in
